@@ -379,6 +379,8 @@ def extract_fn(unit: str, file: str, item: str, mode: str, contracts, canary: bo
             d -= 2
         elif d == 1 and tx.kind == 'ident' and toks[k + 1].text == ':' and toks[k - 1].text in ('(', ',', 'mut'):
             params.add(tx.text)
+    rename: Dict[int, str] = {}
+    counters: Dict[str, int] = {}
     k = blo + 1
     while k < bhi:
         if toks[k].kind == 'ident' and toks[k].text == 'let':
@@ -411,8 +413,9 @@ def extract_fn(unit: str, file: str, item: str, mode: str, contracts, canary: bo
                             break
                         dd -= 1
                     z += 1
-                new_name = 'vp_%s1' % name
-                edits.append((toks[q].start, toks[q].end, new_name, rw('R21')))
+                counters[name] = counters.get(name, 0) + 1
+                new_name = 'vp_%s%d' % (name, counters[name])
+                rename[q] = new_name
                 # closures that re-bind the name as a parameter shadow it themselves: leave them alone
                 skip = []
                 for cl0 in find_closures(toks, e, z):
@@ -422,10 +425,12 @@ def extract_fn(unit: str, file: str, item: str, mode: str, contracts, canary: bo
                     if any(a0 <= u <= b0 for (a0, b0) in skip):
                         continue
                     if toks[u].kind == 'ident' and toks[u].text == name and toks[u - 1].text != '.':
-                        # struct-field shorthand `Foo { mode }` would need `mode: vp_mode1`; not present in this codebase
-                        edits.append((toks[u].start, toks[u].end, new_name, rw('R21')))
+                        # (a nested `let` of the same name later overrides this entry for its own range)
+                        rename[u] = new_name
                 info.rewrites.append('R21:%s' % name)
         k += 1
+    for u, nm in sorted(rename.items()):
+        edits.append((toks[u].start, toks[u].end, nm, rw('R21')))
 
     body_start_ins: List[Seg] = []
     if c and c.mutself:
